@@ -1,2 +1,192 @@
-Require Import NV.C10.Model.
-Theorem C10_stub : True. Proof. exact I. Qed.
+(* C10 -- property theorems only.  Each is closed by [exact] of a lemma from Proofs.v.
+
+   All theorems hold for EVERY field (R, 0, 1, +, *, -, /, inv) with Leibniz equality, every block
+   layout (pre, n, post) / product domain, every number of bins and every bin-index table pindex.
+   Layout:  idx3 n post i1 j i3 = (i1*n + j)*post + i3  is the flat position of block index
+   (i1, j, i3);  get a t  is the t-th entry of the flat array a;  Sum n F = F 0 + ... + F (n-1);
+   bins_ok pindex nbin: every index < nbin and every bin non-empty (what the constructors check);
+   rho_ok: the member counts are non-zero IN THE FIELD (automatic in characteristic 0, see
+   C10_counts_nonzero_Qc);  dvol_ok: sizes positive, volume factors non-zero, per-pixel volume
+   tables of the right length;  specs_ok d specs: each analysed sub-domain, in analysis order, is
+   present, has a scalar volume and a valid binning. *)
+From Coq Require Import List Arith Bool Field.
+Import ListNotations.
+Require Import NV.C10.Model NV.C10.Proofs.
+
+(* Distribution (PowerDistributor/DOFDistributor TIMES): every mode (i1, j, i3) of the harmonic
+   side receives the value of its bin pindex[j]. *)
+Theorem C10_distribute :
+  forall (R : Type) (r0 r1 : R) (radd rmul rsub : R -> R -> R) (ropp : R -> R)
+         (rdiv : R -> R -> R) (rinv : R -> R),
+    field_theory r0 r1 radd rmul rsub ropp rdiv rinv eq ->
+    forall pre n post nbin pindex x i1 j i3,
+    i1 < pre -> j < n -> i3 < post ->
+    get R r0 (dist_times R r0 pre n post nbin pindex x) (idx3 n post i1 j i3)
+    = get R r0 x (idx3 nbin post i1 (nth j pindex 0) i3).
+Proof. intros R r0 r1 radd rmul rsub ropp rdiv rinv F. exact (dist_times_get R r0). Qed.
+
+(* Adjoint (ADJOINT_TIMES via numpy.bincount per column): entry (i1, b, i3) is the sum over the
+   members of bin b. *)
+Theorem C10_adjoint_sums :
+  forall (R : Type) (r0 r1 : R) (radd rmul rsub : R -> R -> R) (ropp : R -> R)
+         (rdiv : R -> R -> R) (rinv : R -> R),
+    field_theory r0 r1 radd rmul rsub ropp rdiv rinv eq ->
+    forall pre n post nbin pindex x i1 b i3,
+    length pindex = n -> Forall (fun i => i < nbin) pindex ->
+    i1 < pre -> b < nbin -> i3 < post ->
+    get R r0 (dist_adjoint R r0 radd pre n post nbin pindex x) (idx3 nbin post i1 b i3)
+    = Sum R r0 radd n (fun j => if nth j pindex 0 =? b then get R r0 x (idx3 n post i1 j i3) else r0).
+Proof. intros R r0 r1 radd rmul rsub ropp rdiv rinv F. exact (dist_adjoint_get R r0 r1 radd rmul rsub ropp rdiv rinv F). Qed.
+
+(* <y, D x> = <D^T y, x> for the flat inner products  dot N a b = Sum_{t<N} a[t]*b[t]. *)
+Theorem C10_adjointness :
+  forall (R : Type) (r0 r1 : R) (radd rmul rsub : R -> R -> R) (ropp : R -> R)
+         (rdiv : R -> R -> R) (rinv : R -> R),
+    field_theory r0 r1 radd rmul rsub ropp rdiv rinv eq ->
+    forall pre n post nbin pindex x y,
+    length pindex = n -> Forall (fun i => i < nbin) pindex ->
+    dot R r0 radd rmul (pre * n * post) y (dist_times R r0 pre n post nbin pindex x)
+    = dot R r0 radd rmul (pre * nbin * post) (dist_adjoint R r0 radd pre n post nbin pindex y) x.
+Proof. intros R r0 r1 radd rmul rsub ropp rdiv rinv F. exact (adjointness R r0 r1 radd rmul rsub ropp rdiv rinv F). Qed.
+
+(* One analysed sub-domain s (scalar volume pdvol) inside ANY product domain dpre ++ s :: dpost
+   whose other sub-domains carry arbitrary non-zero scalar or per-pixel volumes:
+   _single_power_analyze = weight(1) -> adjoint distributor -> weight(-1) returns the bin MEAN,
+   (sum over the members of bin b) / (number of members), on the domain with s replaced by the
+   power space. *)
+Theorem C10_analyze_mean :
+  forall (R : Type) (r0 r1 : R) (radd rmul rsub : R -> R -> R) (ropp : R -> R)
+         (rdiv : R -> R -> R) (rinv : R -> R),
+    field_theory r0 r1 radd rmul rsub ropp rdiv rinv eq ->
+    forall dpre s dpost pdvol pindex nbin x i1 b i3,
+    sdv s = Scalar pdvol -> length pindex = ssize s ->
+    bins_ok pindex nbin -> rho_ok R r0 r1 radd pindex nbin ->
+    dvol_ok R r0 dpre -> dvol_ok R r0 dpost -> pdvol <> r0 ->
+    length x = prodsz (dpre ++ s :: dpost) ->
+    i1 < prodsz dpre -> b < nbin -> i3 < prodsz dpost ->
+    exists y,
+      single_power_analyze R r0 r1 radd rmul rinv (dpre ++ s :: dpost) (length dpre) pindex nbin x
+        = Some (dom' R r0 r1 radd rmul dpre pindex nbin pdvol dpost, y) /\
+      length y = prodsz dpre * nbin * prodsz dpost /\
+      get R r0 y (idx3 nbin (prodsz dpost) i1 b i3)
+      = rmul (Sum R r0 radd (ssize s)
+                (fun j => if nth j pindex 0 =? b
+                          then get R r0 x (idx3 (ssize s) (prodsz dpost) i1 j i3) else r0))
+             (rinv (of_nat R r0 r1 radd (nth b (rho pindex nbin) 0))).
+Proof. intros R r0 r1 radd rmul rsub ropp rdiv rinv F. exact (single_mean R r0 r1 radd rmul rsub ropp rdiv rinv F). Qed.
+
+(* Exactness for any number of analysed sub-domains in any order: analysing a field that was
+   distributed from the fully binned domain returns exactly the binned field (equality of lists)
+   on the domain in which every analysed sub-domain is replaced by its power space. *)
+Theorem C10_analyze_exact :
+  forall (R : Type) (r0 r1 : R) (radd rmul rsub : R -> R -> R) (ropp : R -> R)
+         (rdiv : R -> R -> R) (rinv : R -> R),
+    field_theory r0 r1 radd rmul rsub ropp rdiv rinv eq ->
+    forall specs d p,
+    dvol_ok R r0 d -> specs_ok R r0 r1 radd rmul d specs ->
+    length p = prodsz (doms_after R r0 r1 radd rmul d specs) ->
+    analyze_spaces R r0 r1 radd rmul rinv d specs (distribute_spaces R r0 r1 radd rmul d specs p)
+    = Some (doms_after R r0 r1 radd rmul d specs, p).
+Proof. intros R r0 r1 radd rmul rsub ropp rdiv rinv F. exact (analyze_exact R r0 r1 radd rmul rsub ropp rdiv rinv F). Qed.
+
+(* power_analyze of a real field with f^2 = distribute(p) returns p ... *)
+Theorem C10_power_analyze_exact_real :
+  forall (R : Type) (r0 r1 : R) (radd rmul rsub : R -> R -> R) (ropp : R -> R)
+         (rdiv : R -> R -> R) (rinv : R -> R),
+    field_theory r0 r1 radd rmul rsub ropp rdiv rinv eq ->
+    forall d specs a p,
+    specs <> [] -> dvol_ok R r0 d -> specs_ok R r0 r1 radd rmul d specs ->
+    length p = prodsz (doms_after R r0 r1 radd rmul d specs) ->
+    sq R rmul a = distribute_spaces R r0 r1 radd rmul d specs p ->
+    power_analyze R r0 r1 radd rmul rinv d specs false (FReal a)
+    = Some (doms_after R r0 r1 radd rmul d specs, FReal p).
+Proof. intros R r0 r1 radd rmul rsub ropp rdiv rinv F. exact (panalyze_exact_real R r0 r1 radd rmul rsub ropp rdiv rinv F). Qed.
+
+(* ... and of a complex field with Re^2 + Im^2 = distribute(p) as well. *)
+Theorem C10_power_analyze_exact_complex :
+  forall (R : Type) (r0 r1 : R) (radd rmul rsub : R -> R -> R) (ropp : R -> R)
+         (rdiv : R -> R -> R) (rinv : R -> R),
+    field_theory r0 r1 radd rmul rsub ropp rdiv rinv eq ->
+    forall d specs re im p,
+    specs <> [] -> dvol_ok R r0 d -> specs_ok R r0 r1 radd rmul d specs ->
+    length p = prodsz (doms_after R r0 r1 radd rmul d specs) ->
+    vadd R radd (sq R rmul re) (sq R rmul im) = distribute_spaces R r0 r1 radd rmul d specs p ->
+    power_analyze R r0 r1 radd rmul rinv d specs false (FCplx re im)
+    = Some (doms_after R r0 r1 radd rmul d specs, FReal p).
+Proof. intros R r0 r1 radd rmul rsub ropp rdiv rinv F. exact (panalyze_exact_cplx R r0 r1 radd rmul rsub ropp rdiv rinv F). Qed.
+
+(* Phase information (FIXED code): the result is analyze(Re^2) + i analyze(Im^2), it is defined
+   for every valid input, and its real and imaginary parts add up entry by entry to the result
+   without phase information. *)
+Theorem C10_keep_phase :
+  forall (R : Type) (r0 r1 : R) (radd rmul rsub : R -> R -> R) (ropp : R -> R)
+         (rdiv : R -> R -> R) (rinv : R -> R),
+    field_theory r0 r1 radd rmul rsub ropp rdiv rinv eq ->
+    forall d specs re im,
+    specs <> [] -> specs_ok R r0 r1 radd rmul d specs -> length re = prodsz d -> length im = prodsz d ->
+    exists p0 p1,
+      analyze_spaces R r0 r1 radd rmul rinv d specs (sq R rmul re)
+        = Some (doms_after R r0 r1 radd rmul d specs, p0) /\
+      analyze_spaces R r0 r1 radd rmul rinv d specs (sq R rmul im)
+        = Some (doms_after R r0 r1 radd rmul d specs, p1) /\
+      power_analyze R r0 r1 radd rmul rinv d specs true (FCplx re im)
+        = Some (doms_after R r0 r1 radd rmul d specs, FCplx p0 p1) /\
+      power_analyze R r0 r1 radd rmul rinv d specs false (FCplx re im)
+        = Some (doms_after R r0 r1 radd rmul d specs, FReal (vadd R radd p0 p1)).
+Proof. intros R r0 r1 radd rmul rsub ropp rdiv rinv F. exact (keep_phase R r0 r1 radd rmul rsub ropp rdiv rinv F). Qed.
+
+(* A real field carries no phase: the documented ValueError, for every input. *)
+Theorem C10_real_field_has_no_phase :
+  forall (R : Type) (r0 r1 : R) (radd rmul : R -> R -> R) (rinv : R -> R) d specs a,
+    power_analyze R r0 r1 radd rmul rinv d specs true (FReal a) = None.
+Proof. exact real_no_phase. Qed.
+
+(* create_power_operator: the operator multiplies mode (i1, j, i3) by p[pindex[j]], i.e. it is the
+   diagonal of the distributed spectrum on the addressed sub-domain of any product domain. *)
+Theorem C10_power_operator :
+  forall (R : Type) (r0 r1 : R) (radd rmul rsub : R -> R -> R) (ropp : R -> R)
+         (rdiv : R -> R -> R) (rinv : R -> R),
+    field_theory r0 r1 radd rmul rsub ropp rdiv rinv eq ->
+    forall dpre s dpost pindex nbin p x i1 j i3,
+    length pindex = ssize s -> length x = prodsz (dpre ++ s :: dpost) ->
+    i1 < prodsz dpre -> j < ssize s -> i3 < prodsz dpost ->
+    get R r0 (power_operator_times R r0 rmul (dpre ++ s :: dpost) (length dpre) pindex nbin p x)
+        (idx3 (ssize s) (prodsz dpost) i1 j i3)
+    = rmul (get R r0 x (idx3 (ssize s) (prodsz dpost) i1 j i3)) (get R r0 p (nth j pindex 0)).
+Proof. intros R r0 r1 radd rmul rsub ropp rdiv rinv F. exact (power_operator_get R r0 rmul). Qed.
+
+(* In the rationals (characteristic 0) the field-level side condition on the member counts follows
+   from the combinatorial one: non-empty bins have non-zero counts. *)
+Require Import Lia QArith Qcanon NV.C10.ProofsQc NV.C10.Corr.
+Open Scope nat_scope.
+
+Theorem C10_counts_nonzero_Qc :
+  forall pindex nbin, bins_ok pindex nbin -> rho_ok Qc 0%Qc 1%Qc Qcplus pindex nbin.
+Proof. exact rho_ok_Qc. Qed.
+
+(* Non-vacuity: a product domain (passive sub-domain of size 2 with volume 1/2, harmonic partner
+   of size 4 with volume 1/4 and bins {0}, {1,3}, {2}) meets every hypothesis of the theorems
+   above, and the model run reproduces the spectrum. *)
+Example C10_hyps_satisfiable :
+  let d := [sp_scalar 2 (1 # 2); sp_scalar 4 (1 # 4)] in
+  let specs := [(1, ([0; 1; 2; 1], 3))] in
+  let p := qcs [1#1; 4#1; 9#1; 16#1; 25#1; 36#1]%Q in
+  dvol_ok Qc 0%Qc d /\ specs_ok Qc 0%Qc 1%Qc Qcplus Qcmult d specs /\
+  length p = prodsz (doms_after Qc 0%Qc 1%Qc Qcplus Qcmult d specs) /\
+  eq_list (distribute_spaces Qc 0%Qc 1%Qc Qcplus Qcmult d specs p)
+          (qcs [1#1; 4#1; 9#1; 4#1; 16#1; 25#1; 36#1; 25#1]%Q) = true /\
+  match analyze_spaces Qc 0%Qc 1%Qc Qcplus Qcmult Qcinv d specs
+          (distribute_spaces Qc 0%Qc 1%Qc Qcplus Qcmult d specs p) with
+  | Some (_, y) => eq_list y p
+  | None => false
+  end = true.
+Proof.
+  assert (B : bins_ok [0; 1; 2; 1] 3).
+  { split; [repeat constructor|]. intros [|[|[|b]]] Hb; vm_compute; try discriminate; lia. }
+  split; [|split; [|split; [|split]]].
+  - repeat constructor; simpl; discriminate.
+  - simpl. split; [reflexivity|]. split; [exact B|]. split; [apply rho_ok_Qc; exact B|]. split; [lia|exact I].
+  - reflexivity.
+  - vm_compute. reflexivity.
+  - vm_compute. reflexivity.
+Qed.
